@@ -73,13 +73,13 @@ def desugar(loc, relfile, fn_paths, rules, _pass=0, optional=()):
             if "D25" in rules:
                 # a reason buffer `impl Extend<T> + AsRef<[T]>` is used as a sequence that is appended to and read back:
                 # the anonymous type becomes the stub `PvBuf<T>`, `.extend(std::iter::once(E))` becomes `.pv_push(E)`
-                for m in re.finditer(r"impl Extend<([A-Za-z_0-9]+)> \+ AsRef<\[\1\]>", src[it["start"]:it["end"]]):
+                for m in re.finditer(r"impl Extend<([A-Za-z_0-9]+)>(?: \+ AsRef<\[\1\]>)?", src[it["start"]:it["end"]]):
                     a, b = it["start"] + m.start(), it["start"] + m.end()
                     new = "PvBuf<" + m.group(1) + ">"
                     rewrites.append((a, b, new))
                     records.append({"fn": fp, "rule": "D25 parameter type impl Extend<T> + AsRef<[T]>  =>  PvBuf<T> (stub: a sequence; assumes the buffer returns through as_ref what was appended through extend)",
                                     "original": src[a:b], "rewritten": new})
-                for m in re.finditer(r"\.extend\(std::iter::once\(([^()]*)\)\)", src[it["start"]:it["end"]]):
+                for m in re.finditer(r"\.extend\(std::iter::once\(((?:[^()]|\([^()]*\))*)\)\)", src[it["start"]:it["end"]]):
                     a, b = it["start"] + m.start(), it["start"] + m.end()
                     new = ".pv_push(" + m.group(1) + ")"
                     rewrites.append((a, b, new))
@@ -106,6 +106,14 @@ def desugar(loc, relfile, fn_paths, rules, _pass=0, optional=()):
                     new = f"{recv}.pv_splice({lo}, {hi}, {arg});"
                     rewrites.append((v["call"][0], v["call"][1], new))
                     records.append({"fn": fp, "rule": "D18 let _ = V.splice(LO..HI, ARG);  =>  V.pv_splice(LO, HI, ARG);   (spec/std_vec_splice.rs: the documented effect of Vec::splice whose iterator is dropped at once; panics unless LO <= HI <= len)",
+                                    "original": src[v["call"][0]:v["call"][1]], "rewritten": new})
+                    continue
+                if v["rule"] == "D37":
+                    recv = src[v["recv"][0]:v["recv"][1]]
+                    xs = src[v["src"][0]:v["src"][1]]
+                    new = f"{recv}.pv_extend(&{xs})"
+                    rewrites.append((v["call"][0], v["call"][1], new))
+                    records.append({"fn": fp, "rule": "D37 BUF.extend(X.iter().copied())  =>  BUF.pv_extend(&X)   (the elements of X are appended in order)",
                                     "original": src[v["call"][0]:v["call"][1]], "rewritten": new})
                     continue
                 if v["rule"] == "D36":
